@@ -433,3 +433,40 @@ class Sim:
         names = list(self.sattrs(op["obj"])[attr][1])[op.get("start"):op.get("stop")] + list(op.get("plus", []))
         setattr(o, attr, new)
         self.sattrs(op["obj"])[attr] = ["refs", names]
+
+    def op_clone_system(self, op):
+        """Build, in the same world, a second system that is a disjoint renamed copy of the current one."""
+        sfx = op["suffix"]
+        names = S.closure(self.spec)
+        ren = {n: n + sfx for n in names}
+        keep_system = self.world.system
+        try:
+            for n in S.creation_order({"objs": {k: self.spec["objs"][k] for k in names},
+                                       "order": [k for k in self.spec["order"] if k in names]}):
+                o = self.spec["objs"][n]
+                attrs = {}
+                for a, v in o["attrs"].items():
+                    if v is not None and v[0] == "ref":
+                        attrs[a] = ["ref", ren[v[1]]]
+                    elif v is not None and v[0] == "refs":
+                        attrs[a] = ["refs", [ren[x] for x in v[1]]]
+                    else:
+                        attrs[a] = copy.deepcopy(v)
+                self.create(ren[n], o["cls"], attrs, o.get("src"))
+        finally:
+            self.world.system = keep_system
+
+    def op_cross_system(self, op):
+        """A link edit that would put an object of one system into the other one."""
+        target = self.obj(op["target"])
+        arg = self.obj(op["arg"])
+        if op["method"] == "append":
+            getattr(target, op["attr"]).append(arg)
+        elif op["method"] == "iadd":
+            lst = getattr(target, op["attr"])
+            lst += [arg]
+            setattr(target, op["attr"], lst)
+        elif op["method"] == "assign_list":
+            setattr(target, op["attr"], list(getattr(target, op["attr"])) + [arg])
+        else:
+            setattr(target, op["attr"], arg)
